@@ -9,6 +9,21 @@ HERE = os.path.dirname(os.path.dirname(os.path.abspath(__file__)))
 ALL = ['C%02d' % i for i in range(1, 21)]
 
 CHECKS = {
+    'C01': dict(
+        engine='M',
+        category='other',
+        text='Kernel-level bounded check of totality: the MIR of the number-literal scanner (Expression::parse_number and its closure) '
+             'and of the tag-recovery loop (CustomAttribute::parse_until_tag_end) is executed over symbolic character sequences against '
+             'contracts of the ParseState cursor; every panic / unreachable!() / overflow or bounds assert / unwrap is an obligation decided '
+             'by z3 on every path, and the unwinding assertion shows every loop iteration consumes input (no hang).  The whole-input claim '
+             '(parse+generate+stringify+transform for every text) is outside the reach of any engine here (DESIGN 2) and is not claimed.',
+        note='Bounds: parse_number free ASCII <= 12 chars (thorough 24) + structured families reaching the i64 boundaries (0x+18 alnum, 21 '
+             'decimal digits, 0+23 octal digits); parse_until_tag_end <= 3 (4) arbitrary Unicode scalars.  Trusted: ParseState cursor contracts '
+             '(mirsym/ps_env.py; established on the compiled code by the Kani harnesses of C16), str::parse::<f64> = any f64 or Err, '
+             'CustomAttribute::parse_next consumes >= 1 char.  Findings are replayed natively (dev profile).',
+        technique='symbolic execution of MIR with state merging + SMT (z3), native replay',
+        design='§4 C01 (M01b, M01e)',
+    ),
     'C02': dict(
         engine='M',
         category='other',
